@@ -85,17 +85,31 @@ def gen_a(r, klass):
         return "path", pspec
 
     def place_part(pspec):
-        if nest < 40:
+        if nest < 35:
             return "part", pspec
-        if nest < 70:
+        if nest < 60:
             return "path", {"path": ["a", pspec]}
-        return "rule", {"path": [pspec], "condition": {"value.truthy": None}}
+        if nest < 80:
+            return "rule", {"path": [pspec], "condition": {"value.truthy": None}}
+        # inside a path given as a condition argument (a well-formed path spec key with a
+        # malformed part below it)
+        c2 = r.pct()
+        if c2 < 40:
+            return "cond", {"value.equal_to": {"path": ["a", pspec]}}
+        if c2 < 70:
+            return "cond", {"value.in_range": {"lower": {"path.length": [pspec]}, "upper": 5}}
+        return "rule", {"path": ["a"], "condition": {"value.in": [1, {"path.first": [pspec, "b"]}]}}
 
     leaf = wellformed_cond(r)
     ls = SP.leaf_spec(leaf, sp)
     k0, v0 = next(iter(ls.items()))
     toks = k0.split(".")
     if klass == "unknown-datum":
+        if r.pct() < 30:
+            # an operator name used as a datum kind: 'and.in', 'or.length.equal_to' ...
+            other = SP.cond_spec(wellformed_cond(r), sp)
+            arg = r.choice([[], [{}, {}], [other], [other, ls], None, 1])
+            return place_cond({r.choice(["and", "or", "xor"]) + "." + ".".join(toks[1:]): arg})
         toks[0] = r.choice(["foo", "values", "val", "keys", "idx", "valu", "path", ""])
         return place_cond({".".join(toks): v0})
     if klass == "unknown-preproc":
